@@ -13,7 +13,7 @@ THEOREMS = [(M, "NQ.C08." + n) for n in [
     "transpile_simulates_final_partial", "pad_is_set", "set_writes_gen",
     "templates_eq_nvdecomp", "expandSound_of_C07", "transpile_simulates_C07_partial",
     "mov_unknown_emits_ec", "mov_sdk_shape_in_qstatic", "f10_nonQ_register_asserts", "sets_only_scratch_gen", "seeded_scratch_registers",
-    "seeded_cache_violates_scratch_ok", "seeded_qfree_register_live", "seeded_index_loop_head", "branch_to_line_zero", "seeded_line_zero",
+    "seeded_cache_violates_scratch_ok", "seeded_qfree_register_live", "seeded_load_written_register_named", "seeded_index_loop_head", "branch_to_line_zero", "seeded_line_zero",
     "transpile_pure", "transpile_retry_pure", "second_pass_identity_witness",
     "f10_counterexample_asserts", "f10_counterexample_stale", "f26_fixed_witness"]]
 TRANSLATORS = ["nv_expand", "nv_decomp"]
@@ -298,6 +298,26 @@ def run(ctx):
     for dbg in (False, True):
         oracle("corpus-free-then-realloc", w_free, 4, debug=dbg)
         syntactic("corpus", w_free, dbg, False)
+    # seeded change C08_17: a Q register written by `load` (never a gate operand, so not F10) that stays
+    # live across a carbon-carbon gate and is the lowest register no `set` ever wrote
+    STO, LD, MEAS = "core.StoreInstruction", "core.LoadInstruction", "core.MeasInstruction"
+    w_ldlive = [H.ins(SET, Rr(0), H.imm(0)), H.ins(SET, Rr(1), H.imm(3)), H.ins(SET, Rr(2), H.imm(1)),
+                H.ins("core.ArrayInstruction", Rr(2), {"a": 0}), H.ins(STO, Rr(1), {"e": [0, Rb, 0]})]
+    for rq, vq in ((4, 0), (1, 1), (2, 2), (3, 3)):
+        w_ldlive += [H.ins(SET, Qr(rq), H.imm(vq)), H.ins(QA, Qr(rq)), H.ins(INI, Qr(rq))]
+    w_ldlive += [H.ins("vanilla.GateXInstruction", Qr(3)), H.ins("vanilla.GateHInstruction", Qr(1)),
+                 H.ins(LD, Qr(0), {"e": [0, Rb, 0]}), H.ins(CN, Qr(1), Qr(2)),
+                 H.ins(MEAS, Qr(0), H.reg(H.M, 0)), H.ins(QF, Qr(0)), H.ins("core.RetRegInstruction", H.reg(H.M, 0))]
+    # the same with `add` as the writer and `init` + `meas` as the users
+    w_addlive = [H.ins(SET, Rr(0), H.imm(2)), H.ins(SET, Rr(1), H.imm(1)),
+                 H.ins(SET, Qr(1), H.imm(1)), H.ins(SET, Qr(2), H.imm(2)), H.ins("vanilla.GateHInstruction", Qr(1)),
+                 H.ins(ADD, Qr(0), Rr(0), Rr(1)), H.ins(INI, Qr(0)),
+                 H.ins(CP, Qr(1), Qr(2)), H.ins(INI, Qr(0)), H.ins(MEAS, Qr(0), H.reg(H.M, 1))]
+    for dbg in (False, True):
+        oracle("corpus-nonset-written-live", w_ldlive, 4, debug=dbg)
+        oracle("corpus-nonset-written-live", w_addlive, 4, debug=dbg)
+        syntactic("corpus", w_ldlive, dbg, False)
+        syntactic("corpus", w_addlive, dbg, False)
     oracle("corpus-F10-assert", w_assert, 3, _G([(5, 0, 0)]))
     oracle("corpus-F10-stale", w_stale, 3, _G([(6, 0, 0)]))
     # F26 (fixed): branch across a carbon-carbon gate with debug markers
